@@ -234,6 +234,7 @@ type loopInfo struct {
 	header *ssa.BasicBlock
 	body   map[*ssa.BasicBlock]bool
 	mods   map[string]Sort // heap arrays stored in the body
+	local  map[string]Sort // heap arrays only written at objects allocated inside the body
 	all    bool            // havoc everything
 }
 
@@ -315,7 +316,7 @@ func (ex *Exec) analyseLoops(fn *ssa.Function) map[*ssa.BasicBlock]*loopInfo {
 			if s.Dominates(b) {
 				li := loops[s]
 				if li == nil {
-					li = &loopInfo{header: s, body: map[*ssa.BasicBlock]bool{s: true}, mods: map[string]Sort{}}
+					li = &loopInfo{header: s, body: map[*ssa.BasicBlock]bool{s: true}, mods: map[string]Sort{}, local: map[string]Sort{}}
 					loops[s] = li
 				}
 				// natural loop of back edge b->s
@@ -425,6 +426,12 @@ func (ex *Exec) instrMods(in ssa.Instruction, li *loopInfo) {
 	w := ex.w
 	switch x := in.(type) {
 	case *ssa.Store:
+		if root := addrRoot(x.Addr); root != nil && li.body[root.Block()] && li.local != nil {
+			// a store into an object allocated by this very iteration
+			tmp := &loopInfo{mods: li.local}
+			ex.addrMods(x.Addr, tmp)
+			return
+		}
 		ex.addrMods(x.Addr, li)
 	case *ssa.MapUpdate:
 		if mt, ok := x.Map.Type().Underlying().(*types.Map); ok {
@@ -433,7 +440,11 @@ func (ex *Exec) instrMods(in ssa.Instruction, li *loopInfo) {
 			li.mods[vn] = vs
 		}
 	case *ssa.Alloc:
-		ex.typeMods(deref(x.Type()), li)
+		if li.local != nil {
+			ex.typeMods(deref(x.Type()), &loopInfo{mods: li.local})
+		} else {
+			ex.typeMods(deref(x.Type()), li)
+		}
 	case *ssa.MakeSlice:
 		n, s := w.ElemArray(x.Type().Underlying().(*types.Slice).Elem())
 		li.mods[n] = s
@@ -729,6 +740,22 @@ func (ex *Exec) enterLoopHeader(st *State, fr *Frame, li *loopInfo, from *ssa.Ba
 	} else {
 		for _, n := range sortedKeys(li.mods) {
 			ex.w.heapSet(st.heap, n, ex.w.Fresh(n+"!loop", li.mods[n]))
+		}
+		// arrays written only at objects allocated inside the loop: objects that
+		// existed when the loop was entered keep their values
+		for _, n := range sortedKeys(li.local) {
+			if _, full := li.mods[n]; full {
+				continue
+			}
+			srt := li.local[n]
+			if k, _, ok := srt.IsArray(); !ok || k != SRef {
+				ex.w.heapSet(st.heap, n, ex.w.Fresh(n+"!loop", srt))
+				continue
+			}
+			oldA := ex.w.heapGet(st.heap, n, srt)
+			na := ex.w.Fresh(n+"!loopl", srt)
+			st.assume(Term{fmt.Sprintf("(forall ((r!q Ref)) (! (=> (<= (born r!q) %d) (= (select %s r!q) (select %s r!q))) :pattern ((select %s r!q))))", st.heap.clock, na.S, oldA.S, na.S), SBool})
+			ex.w.heapSet(st.heap, n, na)
 		}
 	}
 	for _, in := range li.header.Instrs {
@@ -1129,4 +1156,25 @@ func (ex *Exec) assumeBorn(st *State, r Term, bound int) {
 func (ex *Exec) byteContent(h *Heap, s Term) Term {
 	bm := ex.w.heapGet(h, "BM", ArraySort(SRef, SBytes))
 	return BSlice(Select(bm, SBase(s)), SOff(s), Add(SOff(s), SLen(s)))
+}
+
+// addrRoot follows field/element address computations back to an allocation.
+func addrRoot(v ssa.Value) *ssa.Alloc {
+	for i := 0; i < 16; i++ {
+		switch x := v.(type) {
+		case *ssa.Alloc:
+			return x
+		case *ssa.FieldAddr:
+			v = x.X
+		case *ssa.IndexAddr:
+			if _, isPtr := x.X.Type().Underlying().(*types.Pointer); isPtr {
+				v = x.X
+			} else {
+				return nil
+			}
+		default:
+			return nil
+		}
+	}
+	return nil
 }
